@@ -266,6 +266,7 @@ pub fn generate(seed: u64) -> C20Scn {
         allow_other: true,
         allow_skip: true,
         tl_eighths: 3,
+        crlf_eighths: 1,
         large_inputs: true,
         default_config_eighths: 4,
     };
